@@ -673,25 +673,59 @@ func checkWebKeyAlwaysPosts(c *Ctx, p *Prog, rule string) {
 		posts[call] = true
 	}
 	mods := map[string]bool{"Control": true, "Alt": true, "Meta": true, "Shift": true}
+	// a block entered only by true edges of `name == <modifier name>` comparisons
+	var onlyModNames func(b *ssa.BasicBlock) bool
+	onlyModNames = func(b *ssa.BasicBlock) bool {
+		if len(b.Preds) == 0 {
+			return false
+		}
+		for _, pr := range b.Preds {
+			okEdge := false
+			if iff, isIf := pr.Instrs[len(pr.Instrs)-1].(*ssa.If); isIf && pr.Succs[0] == b && pr.Succs[1] != b {
+				switch x := iff.Cond.(type) {
+				case *ssa.BinOp:
+					if x.Op == token.EQL {
+						if s, isS := constString(x.Y); isS && mods[s] {
+							okEdge = true
+						}
+					}
+				case *ssa.Call:
+					// a helper that says "this is a modifier key": it answers true only for those names
+					if h := x.Call.StaticCallee(); h != nil && h.Pkg == fn.Pkg && len(h.Blocks) > 0 {
+						all, some := true, false
+						for _, r := range returnsOf(h) {
+							res := derefCell(resultOf(r, 0))
+							if v, isC := constBool(res); isC {
+								if v {
+									some = true
+									if !onlyModNames(r.Block()) {
+										all = false
+									}
+								}
+								continue
+							}
+							all = false
+						}
+						okEdge = all && some
+					}
+				}
+			}
+			if !okEdge {
+				return false
+			}
+		}
+		return true
+	}
 	n, bad := 0, ""
 	for _, r := range returnsOf(fn) {
 		if !existsPathFromEntryAvoiding(fn, r, posts) {
 			continue
 		}
 		n++
-		// every edge into the silent return is the true edge of `key == <modifier name>`
-		for _, pr := range r.Block().Preds {
-			okEdge := false
-			if iff, isIf := pr.Instrs[len(pr.Instrs)-1].(*ssa.If); isIf && pr.Succs[0] == r.Block() {
-				if bo, isBO := iff.Cond.(*ssa.BinOp); isBO && bo.Op == token.EQL {
-					if s, isS := constString(bo.Y); isS && mods[s] {
-						okEdge = true
-					}
-				}
-			}
-			if !okEdge {
-				bad += fmt.Sprintf("the return at %s is reached without an event from block %d (%s); ", p.pos(r.Pos()), pr.Index, p.pos(firstPos(pr)))
-			}
+		// every edge into the silent return is the true edge of `key == <modifier name>` (or of a helper
+		// that says so)
+		if !onlyModNames(r.Block()) {
+			bad += fmt.Sprintf("the return at %s is reached without an event by a key that is not a modifier name; ", p.pos(r.Pos()))
 		}
 	}
 	c.Check(len(posts) >= 1 && bad == "", rule, "onKeyEvent:every-key-becomes-an-event", p.pos(fn.Pos()), fmt.Sprintf("%d silent return(s), each only for a modifier key reported on its own %s", n, bad))
